@@ -250,6 +250,7 @@ pub fn rejected_frame(rng: &mut Rng, h: &Hist) -> (Vec<u8>, Option<u32>, &'stati
             d.nwk = h.nwk;
             d.app = h.app;
             d.fopts = rx_timing_setup_req(3);
+            d.confirmed = rng.chance(1, 2);
             let mut b = d.build().unwrap();
             let i = rng.below(b.len() as u64 * 8) as usize;
             b[i / 8] ^= 1 << (i % 8);
@@ -260,6 +261,7 @@ pub fn rejected_frame(rng: &mut Rng, h: &Hist) -> (Vec<u8>, Option<u32>, &'stati
             let fcnt = last.map(|l| l.wrapping_add(1)).unwrap_or(5);
             let mut d = DownDesc::new(h.devaddr, fcnt);
             d.nwk = OTHER_KEY;
+            d.confirmed = rng.chance(1, 2);
             d.fopts = link_adr_req(2, 1, 0x0001, 0, 1);
             (d.build().unwrap(), Some(fcnt), "rej-otherkey")
         }
@@ -274,6 +276,13 @@ pub fn rejected_frame(rng: &mut Rng, h: &Hist) -> (Vec<u8>, Option<u32>, &'stati
             d.app = h.app;
             d.fport = Some(7);
             d.payload = vec![1, 2, 3];
+            // replays of confirmed frames, with header bits and commands a stack might react to
+            d.confirmed = rng.chance(1, 2);
+            d.ack = rng.chance(1, 4);
+            d.fpending = rng.chance(1, 4);
+            if rng.chance(1, 3) {
+                d.fopts = some_cmds(rng, &h.region, 15);
+            }
             (d.build().unwrap(), Some(fcnt), if last.is_some() { "rej-replay" } else { "first-frame" })
         }
         4 => {
@@ -282,6 +291,7 @@ pub fn rejected_frame(rng: &mut Rng, h: &Hist) -> (Vec<u8>, Option<u32>, &'stati
             let mut d = DownDesc::new(h.devaddr, fcnt);
             d.nwk = h.nwk;
             d.app = h.app;
+            d.confirmed = rng.chance(1, 2);
             (d.build().unwrap(), Some(fcnt), "rej-farfuture")
         }
         5 => {
